@@ -422,10 +422,18 @@ class Replayer:
                 self.agree[name] += 1
 
     def _state(self, out, op, what, exp, got, n=None):
+        """anything but minKey/maxKey: outcome of a call (op = the call) or answer of a query (op = the query)"""
         self.queries += 1
         if exp == got:
             return
-        sig = {'op': op, 'what': what}
+        kind = lambda v: v[7:] if isinstance(v, str) and v.startswith('raises ') else \
+            'absent' if v is None or v is _SENT or v is False else 'lookup_error' if v == 'lookup_error' else 'value'
+        if what in ('outcome', 'pos', 'result', 'return'):
+            sig = {'op': op, 'what': what}
+            if what == 'outcome':
+                sig.update(expected=exp, got=got)
+        else:
+            sig = {'op': what, 'expected': kind(exp), 'got': kind(got)}
         out.append({'sig': sig, 'query': what if n is None else '%s(%s)' % (what, self.keys[n].hex()),
                     'expected': _fmt(exp), 'got': _fmt(got), 'state': True})
 
@@ -610,6 +618,8 @@ def edges_job(job):
             mms = rp.step(act, args, dst)
             steps += 1
             actions[act] += 1
+            if g.nodes[dst][2] != 'ok':
+                actions[act + ':' + g.nodes[dst][2]] += 1
             for mm in mms:
                 acc.add(mm, pre + [(act, args, dst)], prof)
     return {'steps': steps, 'actions': dict(actions), 'mism': acc.by_sig, 'queries': rp.queries, 'agree': rp.agree,
